@@ -244,14 +244,23 @@ class Compiler(object):
         return compiled
 
     def pre_process(self):
+        # One step at a time over all modules, as a step looks into
+        # imported types of other modules. The result must not depend
+        # on the order of the modules in the specification.
         for module_name, module in self._specification.items():
-            types = module['types']
-            type_descriptors = types.values()
+            self.pre_process_components_of(module['types'].values(),
+                                           module_name)
 
-            self.pre_process_components_of(type_descriptors, module_name)
-            self.pre_process_extensibility_implied(module, type_descriptors)
+        for module_name, module in self._specification.items():
+            self.pre_process_extensibility_implied(module,
+                                                   module['types'].values())
+
+        for module_name, module in self._specification.items():
             self.pre_process_tags(module, module_name)
-            self.pre_process_default_value(type_descriptors, module_name)
+
+        for module_name, module in self._specification.items():
+            self.pre_process_default_value(module['types'].values(),
+                                           module_name)
 
         for module_name, module in self._specification.items():
             self.pre_process_parameterization_step_1(module['types'],
